@@ -245,8 +245,6 @@ def build_request(d):
     addr = d.get("addr")
     url = "%s://%s:%d%s" % (d["scheme"], addr or d["host"], d["port"], target)
     headers = [(n.encode(), v.encode()) for n, v in d["headers"]]
-    if addr:
-        headers.insert(0, (b"Host", d["host"].encode()))
     if d["kind"] == "raw":
         pass
     elif d["fkind"] == "urlenc":
@@ -254,6 +252,11 @@ def build_request(d):
     else:
         headers.append((b"Content-Type", b"multipart/form-data; boundary=XbX"))
     r = http.Request.make(d["method"], url, body_bytes(d), headers)
+    if addr:
+        r.headers.insert(0, b"Host", d["host"].encode())  # (after make(): assigning the URL rewrites a Host header)
+        if r.host != addr or r.headers.get_all("host") != [d["host"]]:
+            from runner import HarnessError
+            raise HarnessError("could not build a request to %s for host %s" % (addr, d["host"]))
     if (r.host, r.port, r.scheme, r.method) != (addr or d["host"], d["port"], d["scheme"], d["method"]):
         from runner import HarnessError
         raise HarnessError("Request.make did not produce the described request: %r" % (d,))
